@@ -1,7 +1,190 @@
-/- Line-protocol engine for C14 — stub, to be filled in. -/
-import CV.Proto
+/- Line-protocol engine for C14 (intentions → Envoy RBAC). See go/overlay/internal/verifharness/c14.
+
+Separators, outermost first: ' ' (tokens) · ',' (lists) · ';' (record fields) · '|' (permissions)
+· '!' (permission fields) · '+' (inner lists) · '~' (innermost fields). `-` is the empty list. -/
+import CV.Rbac
 namespace CV.Engine.C14
-open CV
-def step (_ : Unit) (_toks : List String) : Unit × String := ((), "bad-op")
+open CV CV.Rbac
+
+def lst (sep : String) (tok : String) : List String := if tok == "-" then [] else tok.splitOn sep
+
+/-! ### parsing -/
+
+def pHdr (t : String) : Option HdrPerm :=
+  match t.splitOn "~" with
+  | [n, pr, ex, pf, sf, co, re, inv, ic] => do
+      pure ⟨← decB n, ← decBool pr, ← decB ex, ← decB pf, ← decB sf, ← decB co, ← decB re, ← decBool inv, ← decBool ic⟩
+  | _ => none
+
+def pPerm (t : String) : Option Perm :=
+  match t.splitOn "!" with
+  | [a, h, pe, pp, pr, hs, ms] => do
+      let allow ← decBool a
+      let has ← decBool h
+      if has then
+        pure ⟨allow, some ⟨← decB pe, ← decB pp, ← decB pr, ← (lst "+" hs).mapM pHdr, ← (lst "+" ms).mapM decB⟩⟩
+      else pure ⟨allow, none⟩
+  | _ => none
+
+def pIxn (t : String) : Option Ixn :=
+  match t.splitOn ";" with
+  | [peer, name, dst, prec, allow, perms] => do
+      pure ⟨← decB peer, ← decB name, ← decB dst, ← prec.toNat?, ← decBool allow, ← (lst "|" perms).mapM pPerm⟩
+  | _ => none
+
+def pBundle (t : String) : Option Bundle :=
+  match t.splitOn ";" with
+  | [p, td, ap] => do pure ⟨← decB p, ← decB td, ← decB ap⟩
+  | _ => none
+
+def pSrc (t : String) : Option Src :=
+  match t.splitOn ";" with
+  | [n, p, ap, td] => do pure ⟨← decB n, ← decB p, ← decB ap, ← decB td⟩
+  | _ => none
+
+def pIdent (t : String) : Option Ident :=
+  match t.splitOn "~" with
+  | ["s", td, ap, ns, dc, n] => do pure (.svc (← decB td) (← decB ap) (← decB ns) (← decB dc) (← decB n))
+  | ["g", td, dc] => do pure (.gw (← decB td) (← decB dc))
+  | ["r", s] => do pure (.raw (← decB s))
+  | _ => none
+
+def pXElem (t : String) : Option XElem :=
+  match t.splitOn "!" with
+  | [pre, u] => do pure ⟨← decB pre, ← pIdent u⟩
+  | _ => none
+
+def pCaller (t : String) : Option Caller :=
+  match t.splitOn ";" with
+  | [d, x] => do
+      let direct ← pIdent d
+      if x == "-" then pure ⟨direct, none⟩
+      else pure ⟨direct, some (← (x.splitOn "+").mapM pXElem)⟩
+  | _ => none
+
+def pPair (t : String) : Option (Name × Name) :=
+  match t.splitOn "~" with
+  | [a, b] => do pure (← decB a, ← decB b)
+  | _ => none
+
+def pReq (t : String) : Option Req :=
+  match t.splitOn ";" with
+  | [p, hs, rx] => do pure ⟨← decB p, ← (lst "+" hs).mapM pPair, ← (lst "+" rx).mapM pPair⟩
+  | _ => none
+
+/-! ### canonical printing -/
+
+def sStrM : StrM → String
+  | .exact s ic => s!"ex[{encB s};{encBool ic}]"
+  | .pfx s ic => s!"pf[{encB s};{encBool ic}]"
+  | .sfx s ic => s!"sf[{encB s};{encBool ic}]"
+  | .contains s ic => s!"co[{encB s};{encBool ic}]"
+  | .regex s => s!"re[{encB s}]"
+
+def sHdrM (h : HdrM) : String :=
+  let spec := match h.spec with | .present => "present" | .str m => sStrM m
+  s!"hdr({encB h.name},{spec},{encBool h.invert})"
+
+mutual
+def sPm : Pm → String
+  | .any => "any"
+  | .urlPath m => s!"path({sStrM m})"
+  | .header h => sHdrM h
+  | .andRules l => "and(" ++ sPms l ++ ")"
+  | .orRules l => "or(" ++ sPms l ++ ")"
+  | .notRule p => "not(" ++ sPm p ++ ")"
+def sPms : List Pm → String
+  | [] => ""
+  | [p] => sPm p
+  | p :: ps => sPm p ++ "," ++ sPms ps
+end
+
+mutual
+def sPr : Pr → String
+  | .id s => s!"auth({encB (idPattern s)})"
+  | .gw td => s!"auth({encB (gwPattern td)})"
+  | .xfcc s => s!"xfcc({encB (xfccPattern s)})"
+  | .andIds l => "and(" ++ sPrs l ++ ")"
+  | .orIds l => "or(" ++ sPrs l ++ ")"
+  | .notId p => "not(" ++ sPr p ++ ")"
+def sPrs : List Pr → String
+  | [] => ""
+  | [p] => sPr p
+  | p :: ps => sPr p ++ "," ++ sPrs ps
+end
+
+def sPolicy (p : PolName × Policy) : String :=
+  let n := match p.1 with | .l7 i => s!"L7-{i}" | .l4 => "L4"
+  n ++ "{" ++ sPrs p.2.principals ++ "#" ++ sPms p.2.permissions ++ "}"
+
+def sRbac (rb : Rbac) : String :=
+  (if rb.allowAction then "ALLOW" else "DENY") ++ "[" ++ "".intercalate (rb.policies.map sPolicy) ++ "]"
+
+def bits (l : List Bool) : String := String.ofList (l.map fun b => if b then '1' else '0')
+
+def sSrc (s : Src) : String := s!"{encB s.name};{encB s.peer};{encB s.ap};{encB s.td}"
+
+def emptyReq : Req := ⟨[], [], []⟩
+
+/-! ### the engine -/
+
+def step (_ : Unit) (toks : List String) : Unit × String :=
+  match toks with
+  | ["rbac", d, h, td, bs, is, cs, rs] =>
+    match decBool d, decBool h, decB td, (lst "," bs).mapM pBundle, (lst "," is).mapM pIxn,
+          (lst "," cs).mapM pCaller, (lst "," rs).mapM pReq with
+    | some dflt, some http, some ltd, some bundles, some ixns, some callers, some reqs =>
+      let env : Env := ⟨ltd, bundles⟩
+      let reqs := if http then reqs else [emptyReq]
+      let spec := ".".intercalate (callers.map fun c =>
+        bits (reqs.map fun r => specAllow callerSem env ixns dflt http c r))
+      match translate env ixns dflt http with
+      | none => ((), s!"rbac=panic eval=- spec={spec}")
+      | some rb =>
+        let ev := ".".intercalate (callers.map fun c =>
+          bits (reqs.map fun r => evalRbac wireSem rb (wire c) r))
+        ((), s!"rbac={sRbac rb} eval={ev} spec={spec}")
+    | _, _, _, _, _, _, _ => ((), "bad-op")
+  | ["pat", s] =>
+    match pSrc s with
+    | some s => ((), s!"p={encB (idPattern s)} x={encB (xfccPattern s)}")
+    | none => ((), "bad-op")
+  | ["gwpat", td] =>
+    match decB td with
+    | some td => ((), s!"p={encB (gwPattern td)}")
+    | none => ((), "bad-op")
+  | ["match", kind, s, subj] =>
+    match pSrc s, decB subj with
+    | some s, some subj =>
+      if kind == "id" then ((), s!"m={encBool (matchToks (idToks s) subj)}")
+      else if kind == "gw" then ((), s!"m={encBool (matchToks (gwToks s.td) subj)}")
+      else if kind == "xfcc" then ((), s!"m={encBool (matchToks (xfccToks s) subj)}")
+      else ((), "bad-op")
+    | _, _ => ((), "bad-op")
+  | ["spiffe", i] =>
+    match pIdent i with
+    | some i => ((), s!"s={encB (spiffe i)}")
+    | none => ((), "bad-op")
+  | ["xfcc", es] =>
+    match (lst "+" es).mapM pXElem with
+    | some es => ((), s!"s={encB (xfccHeader es)}")
+    | none => ((), "bad-op")
+  | ["srcmatch", a, b] =>
+    match pSrc a, pSrc b with
+    | some a, some b => ((), s!"m={encBool (ixnSourceMatches a b)}")
+    | _, _ => ((), "bad-op")
+  | ["simp", ss] =>
+    match (lst "," ss).mapM pSrc with
+    | some ss => ((), "s=" ++ encList ((simplifyNotSources ss).map sSrc))
+    | none => ((), "bad-op")
+  | ["perm", p, rs] =>
+    match pPerm p, (lst "," rs).mapM pReq with
+    | some p, some reqs =>
+      let pm := convertPermission p
+      ((), s!"pm={sPm pm} eval={bits (reqs.map fun r => evalPm r pm)} spec={bits (reqs.map fun r => permMatches r p)}")
+    | _, _ => ((), "bad-op")
+  | _ => ((), "bad-op")
+
 def engine : Engine := { State := Unit, init := (), step := step }
+
 end CV.Engine.C14
